@@ -26,6 +26,8 @@ macro_rules! dispatch {
             "C04" => Some($f::<checks::c04::C04>($($arg),*)),
             "C09" => Some($f::<checks::hist::C09>($($arg),*)),
             "C11" => Some($f::<checks::hist::C11>($($arg),*)),
+            "C12" => Some($f::<checks::c12::C12>($($arg),*)),
+            "C14" => Some($f::<checks::c14::C14>($($arg),*)),
             "C15" => Some($f::<checks::c15::C15>($($arg),*)),
             "C16" => Some($f::<checks::c16::C16>($($arg),*)),
             "C17" => Some($f::<checks::c17::C17>($($arg),*)),
@@ -36,7 +38,7 @@ macro_rules! dispatch {
     };
 }
 
-pub const ALL_IDS: &[&str] = &["C01", "C03", "C04", "C09", "C11", "C15", "C16", "C17", "C18", "C19"];
+pub const ALL_IDS: &[&str] = &["C01", "C03", "C04", "C09", "C11", "C12", "C14", "C15", "C16", "C17", "C18", "C19"];
 
 fn drive_id(id: &str, o: &Opts) -> Option<i32> {
     dispatch!(id, drive, o)
